@@ -313,6 +313,12 @@ class Engine:
             raise Unsupported(f"statement {type(node).__name__}", node)
         return m(node, st)
 
+    def s_ImportFrom(self, node, st):
+        return [(st, None)]  # (names are resolved through the contract registry, not through imports)
+
+    def s_Import(self, node, st):
+        return [(st, None)]
+
     def s_Pass(self, node, st):
         return [(st, None)]
 
@@ -1411,6 +1417,9 @@ class Engine:
             return z3.Exists([i], z3.And(0 <= i, i < cont.ty.len(cont.t), z3.Select(cont.ty.arr(cont.t), i) == k.t))
         if isinstance(cont.ty, TTuple):
             return z3.Or(*[self.compare(ast.Eq(), y, x, st, node) for y in cont.t]) if cont.t else z3.BoolVal(False)
+        if isinstance(cont.ty, TRec) and f"{cont.ty.name}.__contains__" in self.registry:
+            r = self.apply_contract(self.registry[f"{cont.ty.name}.__contains__"], [cont, x], {}, st, node)
+            return r.t  # `x in obj` through the class's __contains__ contract
         raise Unsupported(f"membership in {cont.ty}", node)
 
     # ---- comprehensions --------------------------------------------------------------------------------
